@@ -1231,7 +1231,8 @@ public:
   [[nodiscard]]
   ASMJIT_INLINE_NODEBUG size_t unresolved_fixup_count() const noexcept { return _unresolved_fixup_count; }
 
-  //! Creates a new label-link used to store information about yet unbound labels.
+  //! Creates a new label-link used to store information about yet unbound labels and about labels bound to a different
+  //! section than `section_id` (such fixups are resolved by \ref resolve_cross_section_fixups()).
   //!
   //! Returns `null` if the allocation failed.
   [[nodiscard]]
